@@ -36,6 +36,10 @@ inductive EncErr where
   | codec
   /-- an extracted comparison operator the model does not know: nothing is emitted -/
   | unknownOp
+  /-- `self.name = …` on a row object without a `__dict__` (an instance of `Row` itself, `__slots__ = ()`):
+  `AttributeError`, nothing is emitted.  Cannot occur on the tree as it is (no such statement); it is what a
+  statement-level translation of `as_bytes` that contains one evaluates to (`RowGlue.setAttr`). -/
+  | attribute
   deriving DecidableEq, Repr
 
 inductive DecErr where
